@@ -105,8 +105,8 @@ def sharing_sequences(arity: int) -> list[tuple[str, list]]:
         return ("iri", sstr(Atom(nstag + ".scheme", nosep=True), "/", Atom(nstag + ".path", nosep=True), "#", Atom(local + ".local", nosep=True)))
 
     fill = [iri2("P1", "n1"), iri2("P2", "n2"), iri2("P3", "n3")]
-    hit_then_miss = [iri2("P1", "n1"), iri2("P4", "n4"), iri2("P5", "n5")]
-    again = [iri2("P1", "n1"), iri2("P4", "n4"), iri2("P6", "n6")]
+    hit_then_miss = [iri2("P1", "n7"), iri2("P4", "n4"), iri2("P5", "n5")]
+    again = [iri2("P1", "n8"), iri2("P4", "n9"), iri2("P6", "n6")]
     if arity == 4:
         fill.append(iri2("P3", "n3b"))
         hit_then_miss.append(iri2("P5", "n5b"))
@@ -114,13 +114,21 @@ def sharing_sequences(arity: int) -> list[tuple[str, list]]:
     out.append(("lru-stress-prefix-name", [tuple(fill), tuple(hit_then_miss), tuple(again), tuple(fill)]))
     # partially filled table, then a statement that hits the oldest entry and fills the table up
     part = [iri2("Q1", "m1"), iri2("Q1", "m1"), iri2("Q1", "m1")]
-    grow = [iri2("Q1", "m1"), iri2("Q2", "m2"), iri2("Q3", "m3")]
-    more = [iri2("Q1", "m1"), iri2("Q4", "m4"), iri2("Q2", "m2")]
+    grow = [iri2("Q1", "m5"), iri2("Q2", "m2"), iri2("Q3", "m3")]
+    more = [iri2("Q1", "m6"), iri2("Q4", "m4"), iri2("Q2", "m7")]
     if arity == 4:
         part.append(iri2("Q1", "m1"))
         grow.append(iri2("Q3", "m3"))
         more.append(iri2("Q2", "m2"))
     out.append(("lru-stress-fill-mid-statement", [tuple(part), tuple(grow), tuple(more), tuple(grow)]))
+    # the table becomes full in the MIDDLE of a statement that first hit the oldest entry and then overflows by one
+    pa = [iri2("R1", "k1"), iri2("R2", "k2"), iri2("R1", "k1")]
+    pb = [iri2("R1", "k9"), iri2("R3", "k3"), iri2("R4", "k4")]  # same prefix as pa's subject, different term (not elided)
+    if arity == 4:
+        pa.append(iri2("R2", "k2"))
+        pb.append(iri2("R4", "k4"))
+    out.append(("lru-stress-overflow-at-fill", [tuple(pa), tuple(pb), tuple(pa)]))
+    da = [lit("w1", "DA"), lit("w2", "DB"), lit("w3", "DA")] if False else None
     # datatypes: churn through more datatypes than a tight table holds, then reuse evicted ones
     def lit(tag: str, dt: str) -> tuple:
         return ("lit", sstr(Atom(tag + ".lex")), None, sstr(Atom(dt + ".dt")))
@@ -140,6 +148,12 @@ def sharing_sequences(arity: int) -> list[tuple[str, list]]:
         g2.append(P.t_iri("gg"))
         g3.append(P.t_iri("gg"))
     out.append(("lru-stress-datatypes-generalized", [tuple(g1), tuple(g2), tuple(g3), tuple(g1)]))
+    h1 = [lit("h1", "DA"), lit("h2", "DB"), lit("h3", "DA")]
+    h2 = [lit("h4", "DA"), lit("h5", "DC"), lit("h6", "DD")]
+    if arity == 4:
+        h1.append(P.t_iri("gg"))
+        h2.append(P.t_iri("gg"))
+    out.append(("lru-stress-datatypes-overflow-at-fill", [tuple(h1), tuple(h2), tuple(h1)]))
     # two different quoted triples in a row that share terms position by position
     qa = P.t_triple(P.t_iri("k.s"), P.t_iri("k.p"), P.t_iri("k.o1"))
     qb = P.t_triple(P.t_iri("k.s"), P.t_iri("k.p"), P.t_iri("k.o2"))
